@@ -42,6 +42,22 @@ func (TrafficOrderMonitor) OnWrite(x *Ctx, w *Write) {
 	if sc.Traffic == "" {
 		return
 	}
+	// remember the highest batch the BatchRelease has REPORTED ready in this release (the property asks for
+	// "have been reported ready"; a later transient fall-back of the BatchRelease, e.g. after an API error,
+	// does not un-report it)
+	if w.Key.GVR.Resource == "batchreleases" {
+		switch {
+		case w.Verb == "create" || w.Verb == "delete":
+			delete(x.Mon, "c03.readyBatch")
+		case w.After != nil:
+			if br := asBR(w.After); br != nil && br.Status.CanaryStatus.CurrentBatchState == rolloutsv1beta1.ReadyBatchState &&
+				br.Generation == br.Status.ObservedGeneration {
+				if cur, ok := x.Mon["c03.readyBatch"]; !ok || atoi(cur) < int(br.Status.CanaryStatus.CurrentBatch) {
+					x.Mon["c03.readyBatch"] = fmt.Sprint(br.Status.CanaryStatus.CurrentBatch)
+				}
+			}
+		}
+	}
 	prevShare := x.Mon["c03.share"]
 	prevMatches := x.Mon["c03.matches"]
 	ts := ReadTraffic(x.W, sc)
@@ -93,14 +109,11 @@ func (TrafficOrderMonitor) OnWrite(x *Ctx, w *Write) {
 	}
 	st := br.Status.CanaryStatus
 	var why []string
-	if st.CurrentBatchState != rolloutsv1beta1.ReadyBatchState {
-		why = append(why, "BatchRelease batchState="+string(st.CurrentBatchState)+" (not Ready)")
-	}
-	if st.CurrentBatch+1 < idx {
-		why = append(why, fmt.Sprintf("BatchRelease is at batch %d, step %d needs batch %d", st.CurrentBatch, idx, idx-1))
-	}
-	if br.Generation != br.Status.ObservedGeneration {
-		why = append(why, "BatchRelease spec not yet observed")
+	reported, ok := x.Mon["c03.readyBatch"]
+	if !ok {
+		why = append(why, "the BatchRelease never reported a batch Ready (batchState="+string(st.CurrentBatchState)+")")
+	} else if atoi(reported)+1 < int(idx) {
+		why = append(why, fmt.Sprintf("the BatchRelease reported batch %s Ready at most, step %d needs batch %d", reported, idx, idx-1))
 	}
 	if len(why) > 0 {
 		x.Violate("C03/order/traffic-before-pods", fmt.Sprintf("gateway write (%s %s) raised canary traffic to [%s] for step %d although %s", w.Verb, w.Key, ts.String(), idx, strings.Join(why, "; ")))
@@ -189,14 +202,14 @@ func (VoidMonitor) OnWrite(x *Ctx, w *Write) {
 	x.Count("C04 crash prefixes judged")
 	if !voidOK && prevVoid {
 		if isController(w.Actor) {
-			x.Violate("C04/void/"+sigWrite(w), fmt.Sprintf("after %s %s by controller %s: gateway routes to the canary (%s) but %s", w.Verb, w.Key, w.Actor, ts.String(), voidWhy))
+			x.Violate("C04/void/"+sigWrite(w)+"/"+sigContext(x.Mon), fmt.Sprintf("after %s %s by controller %s: gateway routes to the canary (%s) but %s", w.Verb, w.Key, w.Actor, ts.String(), voidWhy))
 		} else {
 			x.Count("C04 externally induced breaks (not charged)")
 		}
 	}
 	if !pinOK && prevPin {
 		if isController(w.Actor) {
-			x.Violate("C04/pinned/"+sigWrite(w), fmt.Sprintf("after %s %s by controller %s: %s", w.Verb, w.Key, w.Actor, pinWhy))
+			x.Violate("C04/pinned/"+sigWrite(w)+"/"+sigContext(x.Mon), fmt.Sprintf("after %s %s by controller %s: %s", w.Verb, w.Key, w.Actor, pinWhy))
 		} else {
 			x.Count("C04 externally induced breaks (not charged)")
 		}
@@ -226,6 +239,20 @@ func b01(b bool) string {
 }
 
 func sigWrite(w *Write) string { return w.Verb + "-" + w.Key.GVR.Resource + "-by-" + w.Actor }
+
+// sigContext separates the histories in which a violation happens (a finding that needs a superseding
+// release must not hide one that happens in a plain release).
+func sigContext(m MonState) string {
+	switch {
+	case requested(m, "release3"):
+		return "after-supersession"
+	case requested(m, "rollback"):
+		return "after-rollback"
+	case requested(m, "exit"):
+		return "during-exit"
+	}
+	return "plain-release"
+}
 
 // ---------------------------------------------------------------------------------------------
 // C10: rollback and supersession put traffic back on stable first
